@@ -314,6 +314,11 @@ class Gen:
             # operand is sometimes a block with an effect, which must happen exactly once
             small = Lit(ty, self.rng.randint(-1 if ty.signed else 0, ty.bits - 1))  # (-1: the negated form of the rewrite)
             other = r
+            if self.chance(0.25):
+                # `0 * e` / `1 * e`: the product is known, but a failing operation inside e still has to fail
+                small = Lit(ty, self.rng.randint(0, 1))
+                if d > 1 and self.chance(0.3 + 0.5 * min(1.0, c.panic_bias)):
+                    other = r = self.e_arith(ty, d - 1)
             muts = [v for v in self.vars_of(lambda t, m: m and isinstance(t, TInt)) if v[0] not in self.no_assign]
             if muts and self.chance(0.5):
                 # `{ counter += 1; value }`: a non-idempotent effect, visible if it happens more than once
